@@ -4,6 +4,7 @@
 #pragma once
 #include <algorithm>
 #include <map>
+#include <array>
 #include <set>
 #include "rt/rt.h"
 #include "draco/attributes/attribute_octahedron_transform.h"
@@ -71,6 +72,8 @@ struct GenParams {
   bool float_positions_only = false;
   bool dedup = true;          // DeduplicatePointIds at the end (meshes whose points are not deduplicated: see finding F10)
   bool normals_float_only = false;  // integer NORMAL attributes are generated too (finding F9, fixed)
+  bool handles = false;       // meshes only: n x m grids wrapped in x and / or y (handles) with a few quads removed (boundary loops), random diagonals,
+                              // shuffled face order -- traversals that close several handle / hole loops, several topology-split events per symbol
 };
 
 struct Geom {
@@ -90,7 +93,26 @@ inline Geom gen_geometry(vrt::Rng &r, bool want_mesh, const GenParams &gp) {
   int np = shape == 0 ? r.range(1, 3) : r.range(1, gp.max_points);
   int nf = 0;
   std::vector<int> faces;
-  if (want_mesh) {
+  if (want_mesh && gp.handles) {
+    const int w = r.range(3, 6), h = r.range(3, 6);
+    const bool wx = r.coin(3, 4), wy = r.coin(3, 4);
+    const int vw = wx ? w : w + 1, vh = wy ? h : h + 1;
+    np = vw * vh;
+    std::vector<char> removed((size_t)w * h, 0);
+    for (int k = r.range(0, 5); k > 0; --k) removed[r.range(0, w * h - 1)] = 1;
+    std::vector<std::array<int, 3>> tris;
+    for (int y = 0; y < h; ++y)
+      for (int x = 0; x < w; ++x) {
+        if (removed[(size_t)y * w + x]) continue;
+        const int x1 = wx ? (x + 1) % w : x + 1, y1 = wy ? (y + 1) % h : y + 1;
+        const int a = y * vw + x, b = y * vw + x1, c = y1 * vw + x, d = y1 * vw + x1;
+        if (r.coin()) { tris.push_back({a, b, c}); tris.push_back({b, d, c}); } else { tris.push_back({a, b, d}); tris.push_back({a, d, c}); }
+      }
+    for (size_t i = tris.size(); i > 1; --i) std::swap(tris[i - 1], tris[(size_t)r.range(0, (int)i - 1)]);
+    for (auto &t : tris) faces.insert(faces.end(), {t[0], t[1], t[2]});
+    nf = (int)tris.size();
+    g.shape = "handles";
+  } else if (want_mesh) {
     if (shape == 0) { nf = np >= 1 ? r.range(0, 2) : 0; g.shape = "tiny"; }
     else if (shape <= 3) {  // grid patch: manifold with boundary
       const int w = r.range(2, 6), h = r.range(2, 6);
@@ -141,6 +163,7 @@ inline Geom gen_geometry(vrt::Rng &r, bool want_mesh, const GenParams &gp) {
     p.dt = gp.float_positions_only ? DT_FLOAT32 : pdt[r.range(0, 7)];
     p.nc = 3; p.normalized = false;
     p.identity = r.coin(2, 3); p.nvals = std::max(1, r.range(1, std::max(1, np)));
+    if (gp.handles) { p.dt = DT_FLOAT32; p.identity = true; }      // one distinct position per grid vertex: the topology is the grid's
     descs.push_back(p);
   }
   if (gp.allow_extra_atts) {
@@ -166,7 +189,7 @@ inline Geom gen_geometry(vrt::Rng &r, bool want_mesh, const GenParams &gp) {
     const int id = add_attribute(pc, d, np);
     PointAttribute *att = pc->attribute(id);
     const int nv = d.identity ? np : d.nvals;
-    const int cls = r.range(0, 3);
+    const int cls = gp.handles && d.type == GeometryAttribute::POSITION ? 1 : r.range(0, 3);
     if (cls >= 2 && (d.dt == DT_INT32 || d.dt == DT_UINT32)) g.wide32 = true;
     std::vector<uint8_t> buf(64);
     for (int v = 0; v < nv; ++v) {
@@ -274,6 +297,7 @@ struct Opt {
   int explicit_att = -1;   // attribute quantised with SetAttributeExplicitQuantization(bits, explicit_dims < components, origin, range)
   int explicit_dims = 0;
   float explicit_origin = -3000.f, explicit_range = 8000.f;
+  bool reuse_enc = false;       // type-keyed Encoder API only: encode with ONE Encoder object per thread that has served every earlier case (Reset() first)
   bool compress_conn = false;   // sequential meshes: global option "compress_connectivity" (delta + entropy coded indices instead of stored indices)
 };
 
@@ -292,6 +316,7 @@ inline Opt gen_options(vrt::Rng &r, const Geom &g) {
   }
   o.expert = r.coin(3, 4);
   o.compress_conn = r.coin(1, 3);
+  o.reuse_enc = r.coin();
   // Observation O3: the constrained multi-parallelogram ENCODER sizes an entropy histogram by the largest residual symbol (gigabytes for 32-bit
   // wide values; the process is killed by the kernel, not by the codec).  No property speaks about encoder memory: geometries with wide 32-bit
   // attributes stay away from that one scheme (explicitly, and as the default of Edgebreaker at speeds 0 and 1).
@@ -332,7 +357,7 @@ inline Encoded encode(const Geom &g, const Opt &o) {
     if (o.split >= 0) enc->options().SetGlobalBool("split_mesh_on_seams", o.split != 0);
     if (o.compress_conn) enc->options().SetGlobalBool("compress_connectivity", true);
     for (int a = 0; a < (int)o.qbits.size(); ++a) {
-      if (a == o.explicit_att) { const float origin[4] = {o.explicit_origin, o.explicit_origin, o.explicit_origin, o.explicit_origin}; enc->SetAttributeExplicitQuantization(a, std::max(8, o.qbits[a]), o.explicit_dims, origin, o.explicit_range); }
+      if (a == o.explicit_att) { float origin[16]; for (float &x : origin) x = o.explicit_origin; enc->SetAttributeExplicitQuantization(a, std::max(8, o.qbits[a]), o.explicit_dims, origin, o.explicit_range); }
       else if (o.qbits[a] > 0) enc->SetAttributeQuantization(a, o.qbits[a]);
       else enc->options().SetAttributeInt(a, "quantization_bits", -1);
       if (o.pred != -100) enc->SetAttributePredictionScheme(a, o.pred);
@@ -342,7 +367,11 @@ inline Encoded encode(const Geom &g, const Opt &o) {
     e.reported_points = (long)enc->num_encoded_points();
     e.reported_faces = (long)enc->num_encoded_faces();
   } else {
-    Encoder enc;
+    // a reused Encoder is Reset() and then configured exactly like a fresh one: whatever it reports or writes must not depend on what it encoded before
+    static thread_local Encoder persistent;
+    Encoder fresh;
+    Encoder &enc = o.reuse_enc ? persistent : fresh;
+    if (o.reuse_enc) enc.Reset();
     enc.SetSpeedOptions(o.es, o.ds);
     if (o.method >= 0) enc.SetEncodingMethod(g.is_mesh ? (o.method ? MESH_EDGEBREAKER_ENCODING : MESH_SEQUENTIAL_ENCODING)
                                                        : (o.method ? POINT_CLOUD_KD_TREE_ENCODING : POINT_CLOUD_SEQUENTIAL_ENCODING));
